@@ -231,15 +231,26 @@ def export_cases():
     progs.append((base + ".export nope\n", False, {}))
     progs.append((base + ".scope\nq:\n.export q\n.ends\n", False, {}))                                        # local export
     progs.append((base + ".func fn\n.dc32 fn\n.endf\n.export fn\n", True, {"fn": 0x10c}))
+    # CPUs with more than one byte per address and the CPUs whose ELF class is 64-bit: a label, a .func name and a later label,
+    # one data item (= one address unit, four on arm64) apart
+    for cpu, item, step in (("avr8", ".dw", 1), ("lc3", ".dw", 1), ("propeller", ".dc32", 1), ("ebpf", ".dc64", 1), ("arm64", ".dc32", 4),
+                            ("pic14", ".dw", 1), ("dspic", ".dc32", 2)):
+        src = ".%s\n.org 0x100\ng:\n%s g\n.func fn\n%s fn\n.endf\nh:\n%s h\n.export g\n.export fn\n.export h\n" % (cpu, item, item, item)
+        progs.append((src, True, {"g": 0x100, "fn": 0x100 + step, "h": 0x100 + 2 * step}))
     return progs
 
 
 def _work_export(job):
     src, ok, want = job
     try:
-        r = asm.assemble(src, "elf")
+        r = asm.assemble(src, "elf", args=("-dump_symbols",))
         if r.kind != "ok":
             return src, "crash", "%s" % r.kind
+        if ok and r.status == 0:
+            table = {k: v[0][0] for k, v in (r.symbols or {}).items()}
+            for nm, a in want.items():
+                if table.get(nm) != a:
+                    return src, "export-symbol-table", "%s is 0x%x in the printed symbol table, expected 0x%x" % (nm, table.get(nm, -1), a)
         if not ok:
             if r.status == 0:
                 return src, "export-accepted", "exporting an undefined or local name is accepted"
